@@ -265,10 +265,10 @@ class C15(Prop):
 
 
 class C16(Prop):
-    """Theorems (Props/C16.lean): for every shipped constant whose words can be typed (777 of 878; kernel run of lexer, parser and evaluator models on each) the query of its words performs exactly one lookup of exactly that phrase; the query's terms are the constant's indexed terms (also permuted), no word loses all its terms; top-1 returns a carrier of all words whenever carriers outscore non-carriers. That separation for tantivy's BM25 is established per run by exhaustive execution over all shipped constants and their word permutations, not proved (partial)."""
+    """Theorems (Props/C16.lean): for every shipped constant whose words can be typed (777 of 878; kernel run of lexer, parser and evaluator models on each) the query of its words performs exactly one lookup of exactly that phrase; the query's terms are the constant's indexed terms (also permuted), no word loses all its terms; top-1 returns a carrier of all words whenever carriers outscore non-carriers. That separation for tantivy's BM25 is established per run by exhaustive execution over all shipped constants and their word permutations, not proved (partial). Unified language (Props/UnifiedQuery.lean): `C16_phrase_in_expression` — every fact leaf of an expression is looked up exactly once with exactly its phrase."""
     id = "C16"
     module = "Anything.Props.C16"
-    extra_modules = ["Anything.Props.FactQuery"]
+    extra_modules = ["Anything.Props.FactQuery", "Anything.Props.UnifiedQuery"]
     needs_db_tables = True
     trusted = ["tantivy n-gram tokenizer, query parser and BM25 ranking (validated by exhaustive execution, not proved)"]
 
@@ -432,10 +432,10 @@ class C17(Prop):
 
 
 class C18(Prop):
-    """Theorems (Props/C18.lean): values do not depend on the describe flag; no log without it; the log appends, independent of the incoming log; every entry is a successful lookup paired with that constant's description; the value depends on the database only through the reported phrases (and each is needed); order (right operand first); results of several queries = results in isolation, also permuted. Correspondence: expressions mixing literals and facts with and without descriptions in varying orders; isolation scenario (fresh instance per phrase vs shared instance in several orders, case variants, capitalised operators)."""
+    """Theorems (Props/C18.lean): values do not depend on the describe flag; no log without it; the log appends, independent of the incoming log; every entry is a successful lookup paired with that constant's description; the value depends on the database only through the reported phrases (and each is needed); order (right operand first); results of several queries = results in isolation, also permuted. Correspondence: expressions mixing literals and facts with and without descriptions in varying orders; isolation scenario (fresh instance per phrase vs shared instance in several orders, case variants, capitalised operators). Unified language (Props/UnifiedQuery.lean): `C18_query_unified` — same values with and without describe and the exact log for quantity expressions with fact leaves."""
     id = "C18"
     module = "Anything.Props.C18"
-    extra_modules = ["Anything.Props.FactQuery"]
+    extra_modules = ["Anything.Props.FactQuery", "Anything.Props.UnifiedQuery"]
     needs_tables = True
     trusted = ["lookups are answered by the real database and handed to the model as a table"]
 
@@ -545,6 +545,23 @@ class C18(Prop):
                 t, used = f"({p1} * 2) ({p1} * {p1})", [p1, p1, p1]
             else:
                 t, used = f"(1) ({p1}) (2) ({p1} / {p2})", [p1, p2, p1]
+            texts.append((t, used))
+        # a fact under one cast or a chain of casts is looked up (and described) ONCE
+        UNITS = {"mass": ["kg", "g", "lb", "t", "ounces"], "radius": ["m", "km", "mi", "ft", "au"], "distance": ["m", "km", "mi", "ly", "au"]}
+        for _ in range(40 if tier == "quick" else 800):
+            p1 = rng.choice([p for p in good if p.split(" ")[0] in UNITS] or good)
+            us = UNITS.get(p1.split(" ")[0], ["m"])
+            k = rng.range(1, 3)
+            chain = "".join(" to " + rng.choice(us) for _ in range(k))
+            form = rng.below(4)
+            if form == 0:
+                t, used = p1 + chain, [p1]
+            elif form == 1:
+                t, used = f"2 * {p1}" + chain, [p1]
+            elif form == 2:
+                t, used = f"({p1}{chain}) + ({p1}{chain})", [p1, p1]
+            else:
+                t, used = "pi" + "".join(" to " + rng.choice(["m", "km", "cm"]) for _ in range(k)), ["pi"]
             texts.append((t, used))
         # several queries against the same instance, in varying orders (duplicates included)
         order = list(range(len(texts))) + [rng.below(len(texts)) for _ in range(len(texts) // 2)]
